@@ -174,8 +174,10 @@ def run(tier, seed):
         jobs = []
         for _ in range(batch):
             env = pool[rng.randrange(len(pool))]
+            params, steps = c08.generate(seed, run_no, tier)
             jobs.append({"kind": "c08", "seed": seed, "run": run_no, "tier": tier,
-                         "env": env, "timeout": 600 if thorough else 200})
+                         "env": env, "params": params, "steps": steps,
+                         "timeout": 600 if thorough else 200})
             run_no += 1
         submit(jobs)
         el = time.time() - t0
@@ -183,6 +185,9 @@ def run(tier, seed):
         if el > budget or (not thorough and run_no >= 960):
             break
 
+    n_live = driver.triage_timeouts(all_jobs, all_results)
+    if n_live:
+        log(f"[{PROP}] {n_live} runs do not terminate (liveness)")
     harness = driver.harness_failures(all_results)
     if harness:
         for h in harness[:5]:
